@@ -290,6 +290,11 @@ def asm_operand_loop_total_rule(ctx, R, M):
     lists = [('no operand', []), ('reg', [REG(1)]), ('eax', [REG(0)]), ('imm', [IMM(5)]), ('mem', [MEM()]), ('reg, imm', [REG(1), IMM(5)]), ('eax, imm', [REG(0), IMM(5)]),
              ('reg, reg', [REG(1), REG(2)]), ('imm, imm', [IMM(5), IMM(7)]), ('reg, mem', [REG(1), MEM()]), ('mem, imm', [MEM(), IMM(5)]), ('reg, reg, imm', [REG(1), REG(2), IMM(5)]),
              ('imm, reg', [IMM(5), REG(1)])]
+    from .srcmodel import parent as _parent
+    outer = _parent(loop)
+    pre_stmts = []
+    if isinstance(outer, ast.For) and loop in outer.body:
+        pre_stmts = list(outer.body[:outer.body.index(loop)])
     rows = {}
     for path, c in sorted(M.cells.items()):
         ds = [d for d in c.row.rm if not isinstance(d, (dict, list))]
@@ -313,7 +318,12 @@ def asm_operand_loop_total_rule(ctx, R, M):
                         'good_c': True, 'opc_add': [], 'parsed_args': [], 'parsed_val': [{}], 'out_opc': [list(cell.opc)], 'dib_out': [], 'prefix': [],
                         'x86mndb': class_obj(arch, 'x86allmncs', 'x86mndb'), 'modifs': dict(cand.modifs)})
             try:
-                Evaluator(loc).exec_stmts([loop], loc)
+                # the statements of the candidate loop in front of the operand loop run first (filters on the modifiers, on the number of operands ...): a candidate they
+                # discard never reaches the operand loop
+                try:
+                    Evaluator(loc).exec_stmts(pre_stmts + [loop], loc)
+                except (_ce._Continue, _ce._Break):
+                    pass
                 n_eval += 1
             except PyRaise as e:
                 bad = (label, e.exc_name)
